@@ -1,0 +1,55 @@
+//go:build verif
+
+// Verification hooks (build tag verif): thin constructors/wrappers so that an external harness can drive
+// the retention decision code of this package. No behaviour of its own.
+package engine
+
+import (
+	"time"
+
+	"github.com/openGemini/openGemini/engine/index/tsi"
+	meta2 "github.com/openGemini/openGemini/lib/util/lifted/influx/meta"
+)
+
+type VerifShardSpec struct {
+	ID, GroupID uint64
+	Policy      string
+	End         time.Time
+	Duration    time.Duration
+}
+
+// VerifNewRetentionEngine returns an EngineImpl with one empty partition (db, pt).
+func VerifNewRetentionEngine(db string, pt uint32) *EngineImpl {
+	e := &EngineImpl{DBPartitions: make(map[string]map[uint32]*DBPTInfo)}
+	e.DBPartitions[db] = map[uint32]*DBPTInfo{pt: NewDBPTInfo(db, pt, "", "", nil, nil, nil)}
+	return e
+}
+
+// VerifAddShard installs an opened shard (only the fields retention reads).
+func (e *EngineImpl) VerifAddShard(db string, pt uint32, sp VerifShardSpec) {
+	sh := &shard{
+		ident:        &meta2.ShardIdentifier{ShardID: sp.ID, ShardGroupID: sp.GroupID, OwnerDb: db, OwnerPt: pt, Policy: sp.Policy, EndTime: sp.End},
+		endTime:      sp.End,
+		durationInfo: &meta2.DurationDescriptor{Duration: sp.Duration},
+		indexBuilder: &tsi.IndexBuilder{},
+	}
+	e.DBPartitions[db][pt].shards[sp.ID] = sh
+}
+
+func (e *EngineImpl) VerifRemoveShard(db string, pt uint32, id uint64) bool {
+	_, ok := e.DBPartitions[db][pt].shards[id]
+	delete(e.DBPartitions[db][pt].shards, id)
+	return ok
+}
+
+func (e *EngineImpl) VerifShardIDs(db string, pt uint32) []uint64 {
+	var r []uint64
+	for id := range e.DBPartitions[db][pt].shards {
+		r = append(r, id)
+	}
+	return r
+}
+
+func (e *EngineImpl) VerifNilShardIsExpired(d time.Duration, end time.Time) bool {
+	return e.nilShardIsExpired(d, end)
+}
